@@ -2,7 +2,7 @@
 import common, schema, histgen, p_hist, p_xw
 THEOREMS = ["C13_frozen", "C13_stream", "C13_empty_output", "C13_restart", "C13_header_has_all_params", "C13_outputs_self_contained", "C13_writer_receives_outputs",
             "C13_records_across_outputs", "C13_nonvacuous"]
-EXTRA_PROPERTY_FILES = ("Properties_format", "Properties_exporter")   # obligations over the regenerated Gen_format.v (translator/format.py)
+EXTRA_PROPERTY_FILES = ("Properties_format", "Properties_exporter", "Properties_writers")   # obligations over the regenerated Gen_format.v (translator/format.py)
 def gen_cases(sch, tier, rng):
     cases = []
     n = 250 if tier == "quick" else 8000
